@@ -305,7 +305,7 @@ def run(tier="quick", seed=0, replay=None):
             f = f"raised {core.err_kind(exn)}: {exn}"
         if f:
             chk.violation("explainer-float", f"{kind} (dynamic={dynamic}, seed {sd}): {f}", {"tracker": "explainer", "kind": kind, "dynamic": dynamic, "calls": T, "seed": sd})
-    for alpha, T in ((0.125, 260), (0.5, 60)) if quick else ((0.125, 400), (0.5, 80), (0.02, 1300)):
+    for alpha, T in ((0.125, 260), (0.5, 60)) if quick else ((0.125, 300), (0.5, 80), (0.015625, 150), (0.02, 60)):
         chk.case({"oracle": "normalised-marginal-prediction", "alpha": alpha, "calls": T}, nontrivial=True, sample=False)
         try:
             f = normalised_prediction_fails(alpha, T)
